@@ -776,7 +776,21 @@ func c09SharedObjects(rt *rapid.T) string {
 		}(li)
 	}
 	start.Done()
-	wg.Wait()
+	// (a table that never lets its users finish - a lock taken twice, a lock never
+	// released - is a verdict, not something to wait for until the test binary's deadline)
+	waitAll := func(w *sync.WaitGroup, what string) bool {
+		done := make(chan struct{})
+		go func() { w.Wait(); close(done) }()
+		if _, ok := patientRecv(done, 30*time.Second); !ok {
+			setFail("%s: the goroutines using it at the same time have not finished after 30 s of running time - they wait for one another or for a lock that is never released", what)
+			return false
+		}
+		return true
+	}
+	getFail := func() string { fmu.Lock(); defer fmu.Unlock(); return fail }
+	if !waitAll(&wg, fmt.Sprintf("learned-route table taught %d hosts by each of %d loops", perLoop, loops)) {
+		return getFail()
+	}
 	lost := 0
 	first := ""
 	for li := 0; li < loops && fail == ""; li++ {
@@ -836,9 +850,14 @@ func c09SharedObjects(rt *rapid.T) string {
 			rb.RemoveBackend(e.addr)
 		}
 	}()
-	dwg.Wait()
+	if !waitAll(&dwg, "rotation dispatching while backends are added and removed") {
+		atomic.StoreInt32(&done, 1)
+		return getFail()
+	}
 	atomic.StoreInt32(&done, 1)
-	mwg.Wait()
+	if !waitAll(&mwg, "rotation: the goroutine that adds and removes backends") {
+		return getFail()
+	}
 	if fail != "" {
 		return fail
 	}
